@@ -230,7 +230,7 @@ def check_grid(case, ctx):
 @st.composite
 def profile_cases(draw):
     p1 = [draw(gen.nice_or_free(-1e4, 1e4)), draw(gen.nice_or_free(-1e4, 1e4))]
-    kind = draw(st.sampled_from(["free", "horizontal", "vertical", "same", "far"]))
+    kind = draw(st.sampled_from(["free", "horizontal", "vertical", "same", "far", "tiny"]))
     if kind == "free":
         p2 = [draw(gen.nice_or_free(-1e4, 1e4)), draw(gen.nice_or_free(-1e4, 1e4))]
     elif kind == "horizontal":
@@ -239,6 +239,9 @@ def profile_cases(draw):
         p2 = [p1[0], draw(gen.nice_or_free(-1e4, 1e4))]
     elif kind == "same":
         p2 = list(p1)
+    elif kind == "tiny":
+        p1 = [float(draw(st.integers(-3, 3))), float(draw(st.integers(-3, 3)))]
+        p2 = [p1[0] + draw(st.sampled_from([1e-9, -3e-10, 2.5e-11])), p1[1] + draw(st.sampled_from([1e-9, 0.0, -7e-10]))]
     else:
         p2 = [p1[0] + draw(gen.finite(-1e6, 1e6)), p1[1] + draw(gen.finite(-1e6, 1e6))]
     return dict(p1=p1, p2=p2, size=draw(st.integers(1, 120)), kind=kind,
